@@ -2,6 +2,10 @@ import SkoolVerif.Proofs.AsmModesLemmas
 import SkoolVerif.Proofs.AsmLayoutBin
 import SkoolVerif.Proofs.AsmLayoutAsm
 import SkoolVerif.Proofs.ReplaceNumsLemmas
+import SkoolVerif.Proofs.ReplaceNumsRescan
+import SkoolVerif.Proofs.AsmSnapshot
+import SkoolVerif.Proofs.AsmLabels
+import SkoolVerif.Proofs.ConvertCaseLemmas
 /-!
 C04 — skool2asm, skool2bin and the macro-visible snapshot agree on the assembled image.
 Property theorems only; helper lemmas live in `SkoolVerif/Proofs/`.
@@ -13,6 +17,7 @@ Models (tied to /repo by the correspondence check `harness/props/c04.py`):
   `Mode.apply_asm_directives` + `AsmWriter.write` + sequential assembly (`asmLayout`);
 * `Model/ReplaceNums.lean` — `skoolparser._replace_nums` (regex split as a state machine, the
   eligibility test, the two conversions);
+* `Model/ConvertCase.lean` — `z80.Assembler.convert_case` (skool2asm -l / -u);
 * `Spec/AsmLayout.lean`  — the reference layout written from the directive documentation
   (`specLayout`, partial: `none` outside the documented usage).
 -/
@@ -174,6 +179,64 @@ theorem bin_address_map_correct {Op : Type} (size : Op → Nat) (bs : List (Bloc
     obtain ⟨b', hb, hr⟩ := binBlocks_spec size bs _ _ s' binInit_rel hs
     exact ⟨b', hb, by rw [hr.amap, h]⟩
 
+/-- Labels: when skool2asm's output is assembled, the label of every line lands exactly on the
+address that skool2bin's `address_map` assigns to that line's original address. -/
+theorem label_locations_match_address_map {Op : Type} (size : Op → Nat) (bs : List (Block Op))
+    (m : List (Nat × Nat)) (h : specAmap size bs = some m) : ∀ q ∈ m, q ∈ asmLabelPos size bs := by
+  unfold specAmap at h
+  cases hs : specBlocks size (Spec.init Op) bs with
+  | none => simp [hs] at h
+  | some s' =>
+    simp only [hs, Option.map_some, Option.some.injEq] at h
+    subst h
+    obtain ⟨es, hes, hw⟩ := labBlocks_spec size bs (Spec.init Op) s' [] (by simp [Spec.init]) hs
+    simp only [Spec.init] at hes hw
+    intro q hq
+    simpa [asmLabelPos, hes] using hw q hq
+
+/-- Operand relocation: an operand that names a LABELLED line is resolved by the assembler (via
+the label) to the same address skool2bin substitutes (via `address_map`); an unlabelled operand
+agrees when skool2bin leaves it alone (the line did not move, or it is not a line address).
+`hn`: instruction addresses are distinct. -/
+theorem relocation_agrees {Op : Type} (size : Op → Nat) (bs : List (Block Op)) (m : List (Nat × Nat))
+    (h : specAmap size bs = some m) (labelled : Nat → Bool)
+    (hn : ((asmLabelPos size bs).map (·.1)).Nodup) (ref : Nat)
+    (hlab : labelled ref = true → (m.lookup ref).isSome = true)
+    (hunl : labelled ref = false → relocBin m ref = ref) :
+    relocBin m ref = relocAsm labelled (asmLabelPos size bs) ref := by
+  unfold relocAsm
+  cases hl : labelled ref with
+  | false => simp [hunl hl]
+  | true =>
+    simp only [if_true]
+    have := hlab hl
+    cases hlk : m.lookup ref with
+    | none => simp [hlk] at this
+    | some r =>
+      have hmem := label_locations_match_address_map size bs m h (ref, r) (mem_of_lookup m ref r hlk)
+      rw [lookup_of_mem_nodup _ ref r hmem hn]
+      simp [relocBin, hlk]
+
+/-- Full-strength relocation statement (no label hypothesis) — false on the unchanged code. -/
+def relocation_agrees_full : Prop :=
+  ∀ (bs : List (Block (Nat × Nat))) (labelled : Nat → Bool) (ref : Nat) (st : BinSt (Nat × Nat)),
+    binBlocks (fun o => o.1) (binInit _) bs = .ok st →
+    relocBin st.amap ref = relocAsm labelled (asmLabelPos (fun o => o.1) bs) ref
+
+/-- Witness (KNOWN_FINDINGS `unlabelled-target-after-move`): `c32768 JP 32773` / `@rsub=>XOR A` /
+` 32771 NOP` / ` 32772 NOP` / ` 32773 RET` with no labels: skool2bin relocates the operand 32773 to
+32774, the ASM keeps 32773. -/
+theorem relocation_agrees_full_false : ¬ relocation_agrees_full := by
+  intro h
+  have := h [[.org none, .line ⟨some 32768, some (3, 1), []⟩,
+      .line ⟨some 32771, some (1, 2), [⟨⟨true, false, false, false⟩, some (1, 9)⟩]⟩,
+      .line ⟨some 32772, some (1, 3), []⟩, .line ⟨some 32773, some (1, 4), []⟩]]
+    (fun _ => false) 32773
+    { addr := some 32775, removed := [],
+      out := [(32768, (3, 1)), (32771, (1, 9)), (32772, (1, 2)), (32773, (1, 3)), (32774, (1, 4))],
+      amap := [(32768, 32768), (32771, 32772), (32772, 32773), (32773, 32774)] } (by rfl)
+  simp [relocBin, relocAsm, List.lookup] at this
+
 /-- Full-strength statement (no well-formedness hypothesis) — false on the unchanged code. -/
 def layout_agree_full : Prop :=
   ∀ (bs : List (Block (Nat × Nat))), binLayout (fun o => o.1) bs = asmLayout (fun o => o.1) bs
@@ -197,7 +260,57 @@ theorem layout_agree_full_false : ¬ layout_agree_full := by
   rw [hb, ha] at this
   simp at this
 
-/-! ### (3) numeral base conversion (`_replace_nums`) -/
+/-! ### (3) the macro-visible snapshot (`#PEEK`, image macros) -/
+
+/-- In a fixed-layout file (every line that is not removed has an address, is placed at that
+address, and has at most one directive that replaces/overwrites — nothing inserted) the parser
+assembles into its snapshot exactly the (address, operation) sequence that skool2bin pokes into
+the image and that assembling skool2asm's output produces. -/
+theorem peek_snapshot_agrees {Op : Type} (size : Op → Nat) (bs : List (Block Op)) (out : List (Nat × Op))
+    (h : specLayoutFixed size bs = some out) :
+    parPokes size bs = .ok out ∧ binLayout size bs = .ok out ∧ asmLayout size bs = .ok out := by
+  unfold specLayoutFixed at h
+  cases hs : specBlocksFixed size (Spec.init Op) bs with
+  | none => simp [hs] at h
+  | some s' =>
+    simp only [hs, Option.map_some, Option.some.injEq] at h
+    have hspec : specLayout size bs = some out := by
+      simp [specLayout, specBlocksFixed_spec size bs _ s' hs, h]
+    refine ⟨?_, bin_layout_correct size bs out hspec, asm_layout_correct size bs out hspec⟩
+    have := pokeBlocks_spec size bs _ s' hs
+    simpa [parPokes, Spec.init, h] using this
+
+/-- Hence, whatever the encoding, every address reads the same in the snapshot (what `#PEEK` and
+the image macros see) and in the skool2bin image. -/
+theorem peek_memory_agrees {Op : Type} (size : Op → Nat) (enc : Op → Nat → List Nat) (mem : Nat → Nat)
+    (bs : List (Block Op)) (out pokes image : List (Nat × Op))
+    (h : specLayoutFixed size bs = some out) (hp : parPokes size bs = .ok pokes) (hb : binLayout size bs = .ok image)
+    (x : Nat) : pokeMem enc mem pokes x = pokeMem enc mem image x := by
+  obtain ⟨h1, h2, _⟩ := peek_snapshot_agrees size bs out h
+  rw [h1] at hp; rw [h2] at hb
+  cases hp; cases hb; rfl
+
+/-- Full-strength statement (no fixed-layout hypothesis) — false on the unchanged code. -/
+def peek_agrees_full : Prop :=
+  ∀ (bs : List (Block (Nat × Nat))), parPokes (fun o => o.1) bs = binLayout (fun o => o.1) bs
+
+/-- Witness (KNOWN_FINDINGS `peek-overwrite-chain-not-assembled`): the 2nd instruction of a `|`
+overwrite chain is never assembled into the snapshot (`@bfix=|LD L,0` / `@bfix=|LD H,L` over
+`LD HL,0`). -/
+theorem peek_agrees_full_false : ¬ peek_agrees_full := by
+  intro h
+  have := h [[.org none,
+    .line ⟨some 49914, some (3, 1), [⟨⟨false, false, true, false⟩, some (2, 2)⟩, ⟨⟨false, false, true, false⟩, some (1, 3)⟩]⟩]]
+  have hb : binLayout (fun o : Nat × Nat => o.1) [[.org none,
+    .line ⟨some 49914, some (3, 1), [⟨⟨false, false, true, false⟩, some (2, 2)⟩, ⟨⟨false, false, true, false⟩, some (1, 3)⟩]⟩]] =
+      .ok [(49914, (2, 2)), (49916, (1, 3))] := by rfl
+  have hp : parPokes (fun o : Nat × Nat => o.1) [[.org none,
+    .line ⟨some 49914, some (3, 1), [⟨⟨false, false, true, false⟩, some (2, 2)⟩, ⟨⟨false, false, true, false⟩, some (1, 3)⟩]⟩]] =
+      .ok [(49914, (2, 2))] := by rfl
+  rw [hb, hp] at this
+  simp at this
+
+/-! ### (4) numeral base conversion (`_replace_nums`) -/
 open ReplaceNums in
 /-- Digit round trips for every natural number: `int('{:0wX}'.format(n), 16) = n` for both widths
 and letter cases, and `int(str(n)) = n`. -/
@@ -211,14 +324,10 @@ theorem scan_lossless (pre : Char) (s : List Char) : join (scan pre s) = pre :: 
   simp [scan, join_scanFrom, St.pending]
 
 open ReplaceNums in
-/-- `_replace_nums` rewrites only numerals and every numeral keeps its value, whatever the
-format, `skip_bit`, prefix and input string: the result is the join of a token list with the same
-text elements and the same numeral values as the split of the input.
-**Partial**: that re-tokenising the *output string* yields this token list again (which needs the
-side condition that a decimal numeral is not directly followed by a hexadecimal letter, e.g.
-`12AB` → `$0CAB`) is not proved; the assembler's own evaluation of the result is covered by the
-end-to-end check. -/
-theorem replace_nums_value_preserving_partial (fmt : Option HexFmt) (skipBit : Bool) (pre : Option Char)
+/-- The token-level view: `_replace_nums` rewrites only numerals and every numeral keeps its value,
+whatever the format, `skip_bit`, prefix and input string: the result is the join of a token list
+with the same text elements and the same numeral values as the split of the input. -/
+theorem replace_nums_tokens_preserved (fmt : Option HexFmt) (skipBit : Bool) (pre : Option Char)
     (s : List Char) :
     ∃ ts' : List Tok, replaceNums fmt skipBit pre s = (join ts').drop 1 ∧
       ts'.map Tok.val = (scan (pre.getD '(') s).map Tok.val ∧
@@ -228,6 +337,55 @@ theorem replace_nums_value_preserving_partial (fmt : Option HexFmt) (skipBit : B
   · exact (convAll_val fmt _ _ _).1
   · exact (convAll_val fmt _ _ _).2
   · simp [scan_lossless]
+
+open ReplaceNums in
+/-- **replace_nums_value_preserving**: re-tokenising the OUTPUT STRING of `_replace_nums` gives the
+same text elements and, numeral for numeral, the same values as the input string — for every
+format, `skip_bit`, prefix and input in which no decimal numeral is directly followed by a
+hexadecimal letter (`wfToks`; without it `12AB` would become `$0CAB`, see the example below). The
+documented exceptions (`%binary`, the bit number under `skip_bit`, text after a `"` prefix) are
+numerals that are left alone, so they trivially keep their values too. -/
+theorem replace_nums_value_preserving (fmt : Option HexFmt) (skipBit : Bool) (pre : Option Char)
+    (s : List Char) (hwf : wfToks (scan (pre.getD '(') s) = true) :
+    (scan (pre.getD '(') (replaceNums fmt skipBit pre s)).map Tok.val = (scan (pre.getD '(') s).map Tok.val ∧
+    (scan (pre.getD '(') (replaceNums fmt skipBit pre s)).map Tok.txt = (scan (pre.getD '(') s).map Tok.txt := by
+  rw [rescan_stable fmt skipBit pre s hwf]
+  exact convAll_val fmt _ _ _
+
+open ReplaceNums in
+/-- Hence converting to hexadecimal and back to decimal (or the other way round) never changes
+what the operation denotes. -/
+theorem replace_nums_round_trip_values (f : HexFmt) (pre : Option Char) (s : List Char)
+    (hwf : wfToks (scan (pre.getD '(') s) = true)
+    (hwf2 : wfToks (scan (pre.getD '(') (replaceNums (some f) false pre s)) = true) :
+    (scan (pre.getD '(') (replaceNums none false pre (replaceNums (some f) false pre s))).map Tok.val =
+      (scan (pre.getD '(') s).map Tok.val := by
+  rw [(replace_nums_value_preserving none false pre _ hwf2).1,
+    (replace_nums_value_preserving (some f) false pre s hwf).1]
+
+/-! ### (5) case conversion (`convert_case`, skool2asm -l / -u) -/
+open ConvertCase in
+/-- Case conversion leaves strings alone: the text has the same length, the same quoting structure,
+and the characters inside double-quoted strings (escapes included) are unchanged, for every text. -/
+theorem convert_case_keeps_strings (lower : Bool) (s : List Char) :
+    (convertCase lower s).length = s.length ∧
+    mask .out (convertCase lower s) = mask .out s ∧
+    inString .out (convertCase lower s) = inString .out s :=
+  ⟨go_length lower .out s, mask_go lower .out s, inString_go lower .out s⟩
+
+open ConvertCase in
+/-- Outside strings only the letter case (and the kind of white space) changes: after folding case
+and white space the converted text equals the original — mnemonics, registers, hexadecimal digits
+and label-free operands denote the same thing for a case-insensitive assembler. -/
+theorem convert_case_only_changes_case (lower : Bool) (s : List Char) :
+    (convertCase lower s).map (conv1 true) = s.map (conv1 true) :=
+  go_fold lower .out s
+
+open ConvertCase in
+/-- Converting twice is converting once with the last setting (`-l` after `-u` = `-l`, idempotence). -/
+theorem convert_case_last_wins (l1 l2 : Bool) (s : List Char) :
+    convertCase l1 (convertCase l2 s) = convertCase l1 s :=
+  go_go l1 l2 .out s
 
 -- non-vacuity: concrete files inside the documented usage, with every directive shape
 section examples
@@ -259,6 +417,24 @@ example : binLayout sz demo = asmLayout sz demo :=
      (32777, (2, 8)), (32779, (1, 9)), (32780, (1, 10)), (32781, (1, 12)), (32782, (2, 13)),
      (40000, (2, 15)), (40002, (1, 16))] (by decide)
 example : specAmap sz demo = some [(32768, 32768), (32769, 32773), (32771, 32777), (32775, 32781), (32778, 40000)] := by decide
+example : asmLabelPos sz demo = [(32768, 32768), (32769, 32773), (32771, 32777), (32773, 32779), (32774, 32780), (32775, 32781), (32778, 40000)] := by rfl
+example : ((asmLabelPos sz demo).map (·.1)).Nodup := by decide
+-- the line at 32771 is labelled and moved to 32777: both routes resolve an operand 32771 to 32777
+example : relocBin [(32768, 32768), (32769, 32773), (32771, 32777), (32775, 32781), (32778, 40000)] 32771 =
+    relocAsm (fun a => a == 32771) (asmLabelPos sz demo) 32771 :=
+  relocation_agrees sz demo _ (by decide) _ (by decide) 32771 (by decide) (by decide)
+example : relocBin [(32768, 32768), (32769, 32773), (32771, 32777), (32775, 32781), (32778, 40000)] 32771 = 32777 := by decide
+/-- a fixed-layout file: same-size replacement, single `|` overwrite of two lines, `!` removal with @org -/
+def demoFixed : List (Block (Nat × Nat)) :=
+  [[.org (some 32768),
+    .line ⟨some 32768, some (2, 1), [⟨fl "", some (2, 2)⟩]⟩,
+    .line ⟨some 32770, some (1, 3), [⟨fl "|", some (3, 4)⟩]⟩,
+    .line ⟨some 32771, some (2, 5), []⟩,
+    .line ⟨some 32773, some (1, 6), []⟩],
+   [.remove 32774 32775, .org none,
+    .line ⟨some 32776, some (3, 7), [⟨fl "", none⟩]⟩]]
+example : specLayoutFixed sz demoFixed = some [(32768, (2, 2)), (32770, (3, 4)), (32773, (1, 6)), (32776, (3, 7))] := by decide
+example : specLayoutFixed sz demo = none := by decide     -- `demo` moves code
 -- outside the documented usage the reference is undefined (and the tools may differ):
 example : specLayout sz [[.line ⟨some 1, some (1, 1), []⟩]] = none := by decide            -- no @org
 example : specLayout sz [[.org none, .line ⟨some 1, some (0, 1), []⟩]] = none := by decide  -- cannot assemble
@@ -266,12 +442,21 @@ example : asmLayout sz [[.org none, .line ⟨some 1, some (1, 1), [⟨fl "", som
     .error .cannotDetermine := by rfl
 example : applied (binWeight 2 1) (binSelects 2 1) [(Dir.isub, 0), (.ssub, 1), (.ofix, 2), (.isub, 3), (.rsub, 4), (.ofix, 5)] = [2, 5] := by decide
 example : asmCouple 0 4 ≠ binCouple 0 4 := by decide   -- `== 3` vs `> 2` differ outside the CLI range
+open ConvertCase in  -- DEFM "a\"B",$ff : the string (with its escaped quote) is kept, the rest is upper-cased
+example : convertCase false ['d', 'e', 'f', 'm', ' ', '"', 'a', '\\', '"', 'B', '"', ',', '$', 'f', 'f'] =
+    ['D', 'E', 'F', 'M', ' ', '"', 'a', '\\', '"', 'B', '"', ',', '$', 'F', 'F'] := by decide
 open ReplaceNums in
 example : replaceNums (some ⟨2, false⟩) false none ['L', 'D', ' ', 'A', ',', '1', '2'] =
     ['L', 'D', ' ', 'A', ',', '$', '0', 'C'] := by decide
 open ReplaceNums in
 example : replaceNums none false none ['J', 'P', ' ', '$', '8', '0', '0', '0'] =
     ['J', 'P', ' ', '3', '2', '7', '6', '8'] := by decide
+open ReplaceNums in  -- the side condition of replace_nums_value_preserving is needed: 12 followed by AB reads as $0CAB
+example : (scan '(' (replaceNums (some ⟨2, false⟩) false none ['1', '2', 'A', 'B'])).map Tok.val = [none, some 3243] ∧
+    (scan '(' ['1', '2', 'A', 'B']).map Tok.val = [none, some 12, none] ∧
+    wfToks (scan '(' ['1', '2', 'A', 'B']) = false := by decide
+open ReplaceNums in
+example : wfToks (scan '(' ['L', 'D', ' ', 'A', ',', '1', '2']) = true := by decide
 open ReplaceNums in  -- `%101` is binary and left alone, `5%3` is a modulo operation and converted
 example : replaceNums (some ⟨2, true⟩) false none ['%', '1', '0', '1', ',', '5', '%', '3'] =
     ['%', '1', '0', '1', ',', '$', '0', '5', '%', '$', '0', '3'] := by decide
